@@ -40,6 +40,39 @@ Definition check_fs (impl_fixed : bool) (c : fs_case) : verdict :=
      v_guards := guards [(2%Z, negb impl_fixed && fs_guard_F2 (fc_hist c));
                          (4%Z, negb impl_fixed && fs_guard_F4 (fc_hist c))] |}.
 
+(** ** file system provider -> real processor -> real repository *)
+Record fsr_case := { fr_case : fs_case; fr_active : list (list (option cid)) }.
+
+(** what the ideal repository holds per file after each event, according to the model's calls *)
+Fixpoint active_steps (a : amap) (n : nat) (hs : list hres) : list (list (option cid)) :=
+  match hs with
+  | [] => []
+  | h :: r => let a' := apply_calls a (h_calls h) in map (fun f => a' (Sid f)) (seq 0 n) :: active_steps a' n r
+  end.
+
+(** and according to the specification: the latest valid content seen, per file *)
+Fixpoint spec_active_steps (acc : cid -> bool) (m : seen_map) (n : nat) (views : list (list (sid * sobs)))
+  : list (list (option cid)) :=
+  match views with
+  | [] => []
+  | v :: r => let m' := seen_step m {| t_obs := v; t_calls := [] |} in
+              map (fun f => latest_valid acc (m' (Sid f))) (seq 0 n) :: spec_active_steps acc m' n r
+  end.
+
+Definition check_fsr (impl_fixed : bool) (c : fsr_case) : verdict :=
+  let fc := fr_case c in
+  let O := mk_oracle (fc_rej fc) (fc_undel fc) in
+  let v := check_fs impl_fixed fc in
+  let lo := list_eqb (option_eqb Nat.eqb) in
+  {| v_corr := v_corr v &&
+               list_eqb lo (active_steps a_empty (fc_n fc) (snd (fs_run O impl_fixed (fc_hist fc)))) (fr_active c);
+     v_prop := v_prop v &&
+               list_eqb lo (spec_active_steps (accepts O) seen_empty (fc_n fc) (fs_views (accepts O) (fc_hist fc)))
+                        (fr_active c);
+     v_guards := v_guards v |}.
+
+Definition fsr c a := {| fr_case := c; fr_active := a |}.
+
 (** ** HTTP endpoint *)
 Record http_case := {
   hc_n : nat;
